@@ -408,3 +408,14 @@ def as_container(items, selector, ordered=True, array_like=False):
     if f == "frozenset":
         return frozenset(items), f
     return items, "list"
+
+
+def has_block(seg, b):
+    """True if the boolean array contains a solid b x b block"""
+    m, n = seg.shape
+    if b > m or b > n:
+        return False
+    ii = np.zeros((m + 1, n + 1), dtype=int)
+    ii[1:, 1:] = np.cumsum(np.cumsum(seg != 0, axis=0), axis=1)
+    tot = ii[b:, b:] - ii[:-b, b:] - ii[b:, :-b] + ii[:-b, :-b]
+    return bool(np.any(tot == b * b))
